@@ -125,12 +125,17 @@ class C14(Property):
             "input order and tied query starts; gene pairs on both strands (same / different) for combine_modules, "
             "incl. a strided sample (60k) of all pairs of strings up to length 2x3 (thorough); 2-5 gene chains through the real "
             "generate_domains loop (regions, strands, empty genes, motif-only genes); arbitrary component "
-            "sequences through Module.from_json; every label through classify and all Component predicates. "
+            "sequences through Module.from_json; every label through classify and all Component predicates; random "
+            "HMMResult trees (depth <= 3, overlapping / touching / disjoint internal hits) through the constructor, "
+            "detailed_names, to_json/from_json and Component; a strided enumeration of all ordered pairs of strings "
+            "of length <= 2 as two-gene chains on both strands through generate_domains; chains with domain-less "
+            "genes, region borders and strand changes at the cuts. "
             "non-trivial = at least two modules or one complete module (build/replay), a merge that happened or "
-            "was refused after passing the strand/emptiness guards (pair), at least one cross-gene merge (chain)")
+            "was refused after passing the strand/emptiness guards (pair), at least one cross-gene merge (chain), a "
+            "tree with internal hits (hmm)")
     TRUSTED = [
-        "HMMResult.to_json/from_json round trip and detailed_names (exercised, not modelled: a component is "
-        "its label, subtype chain, query start/end and locus)",
+        "HMMResult e-value / bitscore are Python floats, carried as opaque integers in the Hmm model (kind `hmm` "
+        "uses integral values); the rest of HMMResult (internal hits, overlap check, detailed_names, JSON) is modelled",
         "Python `is` on components is modelled by a flag set where starter and loader are assigned together",
         "`sorted(..., key=query_start)` is a stable sort (modelled by Lean's stable List.mergeSort)",
         "iteration order of the set DOUBLE_TRANSPORTER_CASES (irrelevant while all cases have one length: "
